@@ -393,7 +393,9 @@ func TestC18Concurrent(t *testing.T) {
 			// sends happen before, between and after the failing ones (the reply queue holds ~150 datagrams)
 			g, m = 3, 35
 		}
+		hC18.BeginLimit("TestC18Concurrent", C18Case{Kind: "concurrent", Type: uint16(g), Flags: uint16(m)}, 120*time.Second) // a round that never returns is a deadlock
 		ret := make([][]uint32, g)
+		sendErrs := make([]error, g)
 		var wg sync.WaitGroup
 		start := make(chan struct{})
 		for i := 0; i < g; i++ {
@@ -405,7 +407,7 @@ func TestC18Concurrent(t *testing.T) {
 					p := []byte{byte(i), byte(j), 0xEE}
 					seq, err := cl.Send(syscall.NetlinkMessage{Header: syscall.NlMsghdr{Type: uint16(2000 + i), Flags: syscall.NLM_F_REQUEST}, Data: p})
 					if err != nil {
-						t.Errorf("Send: %v", err)
+						sendErrs[i] = fmt.Errorf("send %d of goroutine %d (3 bytes of payload): %v", j, i, err)
 						return
 					}
 					ret[i] = append(ret[i], seq)
@@ -430,11 +432,19 @@ func TestC18Concurrent(t *testing.T) {
 		}
 		close(start)
 		wg.Wait()
+		hC18.End()
 		hC18.Eval()
 		if failed > 0 {
 			hC18.Class("concurrent-batch-with-failing-sends")
 		}
 		c := C18Case{Kind: "concurrent", Type: uint16(g), Flags: uint16(m)}
+		for _, e := range sendErrs {
+			if e != nil {
+				// nothing makes the kernel refuse a 19-byte request on this socket (its replies queue on the
+				// receiving side): the refusal is about what the client put on the wire
+				hC18.Fail(t, "TestC18Concurrent", c, "%d goroutines x %d sends (failing 230 KB sender: %v): %v", g, m, r%2 == 1, e)
+			}
+		}
 		seen := map[uint32]bool{}
 		var all []uint32
 		for i := range ret {
@@ -452,7 +462,16 @@ func TestC18Concurrent(t *testing.T) {
 		// what the kernel saw
 		wire := map[uint32]int{}
 		for n := 0; n < g*m; n++ {
-			msgs, err := cl.Receive(false, rawParser)
+			// the replies are queued already (the kernel answers inside sendto); never block for one that is missing
+			var msgs []syscall.NetlinkMessage
+			var err error
+			for deadline := time.Now().Add(10 * time.Second); ; {
+				msgs, err = cl.Receive(true, rawParser)
+				if err != syscall.EAGAIN || time.Now().After(deadline) {
+					break
+				}
+				time.Sleep(200 * time.Microsecond)
+			}
 			if err != nil {
 				hC18.Fail(t, "TestC18Concurrent", c, "Receive of reply %d of %d: %v", n, g*m, err)
 			}
